@@ -439,6 +439,11 @@ class Array(pandas.DataFrame):
     def flatten(self, xltype=None, filt=None):
         cast = _safe_cast(Number.cast, None) \
             if xltype is not None else lambda x: x
+        if filt is None:
+            # Drop only the items that could not be cast. `filter(None, ...)`
+            # would also drop every falsy value, e.g. a cash flow of 0.
+            def filt(item):
+                return item is not None
         return list(filter(filt, [cast(item) for item in self.values.flat]))
 
     def cast_to_numbers(self):
